@@ -413,7 +413,11 @@ def gen_tcp(seed, n, types=None):
                         [b"set", K, b"v", b"EXAT", Tok("@T+%d" % ttl)]])
         c.cmd(att)
         c.cmd([b"ttl", K])
-        probes = [p[1] for _, p in sorted(PROBES.items()) if not p[1][0][0].startswith(b"b")]
+        # real clock: no blocking pops, and no auto-generated stream ids (`XADD k *`: the id carries the
+        # server's own millisecond clock, which the replay cannot know -- covered exactly by the
+        # virtual-clock matrix instead)
+        probes = [p[1] for _, p in sorted(PROBES.items()) if not p[1][0][0].startswith(b"b")
+                  and not any(c[0].lower() == b"xadd" and b"*" in c for c in p[1])]
         for wait in (r.choice([300, 500]), r.choice([400, 700, 1000]), r.choice([600, 1000]), 1000):
             for cmd in r.choice(probes):
                 c.cmd(cmd, sleep_ms=wait)
